@@ -43,7 +43,81 @@ Inductive stmt :=
 Inductive lstmt :=
 | LIfRetNil (c : cond)                       (* if c { return nil } *)
 | LIfVisit (c : cond).                       (* if c { if cycle, _ := visit(target); cycle != nil { return &errCycle{Cycle: cycle} } } *)
+(* the fields of type cycleDetector: everything one detector can carry from one Check to the next *)
+Inductive dfield :=
+| DGraph                        (* graph *BuildGraph *)
+| DStopped.                     (* stopped bool *)
 `
+
+// cvDetectorFields lists the fields of `type cycleDetector struct`. Any field other than
+// `graph *BuildGraph` and `stopped bool` fails closed: it would be state kept between runs of Check
+// that the model does not have.
+func cvDetectorFields(fset *token.FileSet, f *ast.File) string {
+	for _, d := range f.Decls {
+		gd, ok := d.(*ast.GenDecl)
+		if !ok || gd.Tok != token.TYPE {
+			continue
+		}
+		for _, sp := range gd.Specs {
+			ts := sp.(*ast.TypeSpec)
+			if ts.Name.Name != "cycleDetector" {
+				continue
+			}
+			st, ok := ts.Type.(*ast.StructType)
+			if !ok {
+				failShape("%s: cycleDetector is not a struct", cvPos(fset, ts))
+			}
+			items := []string{}
+			for _, fl := range st.Fields.List {
+				if len(fl.Names) == 0 {
+					failShape("%s: embedded field in cycleDetector", cvPos(fset, fl))
+				}
+				for _, n := range fl.Names {
+					switch n.Name {
+					case "graph":
+						se, ok := fl.Type.(*ast.StarExpr)
+						if !ok || !cvIsIdent(se.X, "BuildGraph") {
+							failShape("%s: cycleDetector.graph is not a *BuildGraph", cvPos(fset, fl))
+						}
+						items = append(items, "DGraph")
+					case "stopped":
+						if !cvIsIdent(fl.Type, "bool") {
+							failShape("%s: cycleDetector.stopped is not a bool", cvPos(fset, fl))
+						}
+						items = append(items, "DStopped")
+					default:
+						failShape("%s: cycleDetector has a field %s that the model does not know (state kept between runs of Check?)", cvPos(fset, fl), n.Name)
+					}
+				}
+			}
+			return "[" + strings.Join(items, "; ") + "]"
+		}
+	}
+	failShape("type cycleDetector not found")
+	return ""
+}
+
+// cvStopBody: the body of Stop must be exactly `c.stopped = true`.
+func cvStopBody(fset *token.FileSet, f *ast.File) {
+	fd := findFunc(f, "cycleDetector", "Stop")
+	if len(fd.Recv.List[0].Names) != 1 {
+		failShape("Stop: receiver is not named")
+	}
+	recv := fd.Recv.List[0].Names[0].Name
+	body := cvStmts(fd.Body)
+	ok := len(body) == 1
+	if ok {
+		as, isAs := body[0].(*ast.AssignStmt)
+		ok = isAs && as.Tok == token.ASSIGN && len(as.Lhs) == 1 && len(as.Rhs) == 1 && cvIsIdent(as.Rhs[0], "true")
+		if ok {
+			sel, isSel := as.Lhs[0].(*ast.SelectorExpr)
+			ok = isSel && cvIsIdent(sel.X, recv) && sel.Sel.Name == "stopped"
+		}
+	}
+	if !ok {
+		failShape("%s: body of Stop is not exactly `%s.stopped = true`", cvPos(fset, fd), recv)
+	}
+}
 
 type cvNames struct {
 	recv     string // receiver of Check
@@ -405,6 +479,8 @@ func init() {
 	targets["CycleVisit"] = func() string {
 		fset, f := parseFile("src/core/cycle_detector.go")
 		fd := findFunc(f, "cycleDetector", "Check")
+		detectorFields := cvDetectorFields(fset, f)
+		cvStopBody(fset, f)
 		if len(fd.Recv.List[0].Names) != 1 {
 			failShape("Check: receiver is not named")
 		}
@@ -552,6 +628,10 @@ func init() {
 			"(* body of the visit closure *)\n" +
 			"Definition visit_body : list stmt :=\n  " + visitBody + ".\n" +
 			"(* body of the loop over AllTargets(); after the loop: return nil *)\n" +
-			"Definition check_body : list lstmt := " + loopBody + ".\n"
+			"Definition check_body : list lstmt := " + loopBody + ".\n" +
+			"(* type cycleDetector struct { ... }; Check assigns to none of them (no such statement in the language above) *)\n" +
+			"Definition detector_fields : list dfield := " + detectorFields + ".\n" +
+			"(* func (c *cycleDetector) Stop() { c.stopped = true } - anything else fails closed *)\n" +
+			"Definition stop_sets_stopped : bool := true.\n"
 	}
 }
